@@ -156,4 +156,65 @@ def step (s : DNode) : List String → DNode × String
     | _, _, _, _, _, _, _, _, _, _, _, _, _ => (s, "bad-op")
   | _ => (s, "bad-op")
 
-def main : IO Unit := runDriver initNode step
+/-! Topology ops (R-net): the rig describes the real network after the block was applied and asks for the cut
+certificate of Model/Filter.lean (`certify`, proved sound in Props/C06.lean).
+
+  t-new
+  t-node <kind> <on> <side 0/1> <interior|ifaceDown|routerOff|routerDeny|fwDeny|frozen>     (index = order of creation)
+  t-iface <node> <enabled>
+  t-acl <node> <id> <PERMIT|DENY> | t-rule <node> <id> <pos> <rule fields…>
+  t-wire <n> <q> <m> <r>                                                                  (adds both directions)
+  t-certify  → certified | uncertified <first failing node>
+-/
+
+structure DState where
+  node : DNode := initNode
+  topo : Topo := { nodes := [], wires := [] }
+  states : List DNode := []
+
+def parseRole : String → Option RoleTag
+  | "interior" => some .interior | "ifaceDown" => some .ifaceDown | "routerOff" => some .routerOff
+  | "routerDeny" => some .routerDeny | "fwDeny" => some .fwDeny | "frozen" => some .frozen | _ => none
+
+def onNode (st : DState) (i : Nat) (f : DNode → DNode × String) : DState × String :=
+  match st.states[i]? with
+  | some n => let (n', o) := f n; ({ st with states := st.states.set i n' }, o)
+  | none => (st, "bad-op")
+
+def stepAll (st : DState) : List String → DState × String
+  | ["t-new"] => ({ st with topo := { nodes := [], wires := [] }, states := [] }, "ok")
+  | ["t-node", k, on, side, role] =>
+    match parseKind k, parseBool on, parseBool side, parseRole role with
+    | some k, some on, some side, some role =>
+      ({ st with topo := { st.topo with nodes := st.topo.nodes ++ [(side, role)] },
+                 states := st.states ++ [{ initNode with kind := k, on := on }] }, "ok")
+    | _, _, _, _ => (st, "bad-op")
+  | ["t-iface", i, en] =>
+    match i.toNat?, parseBool en with
+    | some i, some en =>
+      onNode st i fun n => ({ n with ifaces := n.ifaces ++ [{ enabled := en, mac := 0, ip := 0, mask := 0 }] }, "ok")
+    | _, _ => (st, "bad-op")
+  | "t-acl" :: i :: rest =>
+    match i.toNat? with
+    | some i => onNode st i fun n => step n ("acl" :: rest)
+    | none => (st, "bad-op")
+  | "t-rule" :: i :: rest =>
+    match i.toNat? with
+    | some i => onNode st i fun n => step n ("rule" :: rest)
+    | none => (st, "bad-op")
+  | ["t-wire", n, q, m, r] =>
+    match n.toNat?, q.toNat?, m.toNat?, r.toNat? with
+    | some n, some q, some m, some r =>
+      ({ st with topo := { st.topo with wires := st.topo.wires ++ [((n, q), (m, r)), ((m, r), (n, q))] } }, "ok")
+    | _, _, _, _ => (st, "bad-op")
+  | ["t-certify"] =>
+    let σ : Nat → DNode := fun n => st.states.getD n initNode
+    if certify st.topo σ then (st, "certified")
+    else match certifyFail st.topo σ with
+      | some n => (st, s!"uncertified {n}")
+      | none => (st, "uncertified ?")
+  | ws =>
+    let (n', o) := step st.node ws
+    ({ st with node := n' }, o)
+
+def main : IO Unit := runDriver ({} : DState) stepAll
